@@ -34,7 +34,7 @@ INITS = [
     dict(Au=[G((1, 0), (2, 0)), G((0, 0), (1, 0))], Av=[G((1, 0), (0, 0), (-1, 0)), G((2, 0), (1, 0), (1, 0))],
          Bu=[G((0, 1), (1, 0))], Bv=[G((1, 0), (1, 1), (0, 0))], Bshape=[2, 3]),                        # A real, B complex
 ]
-ALL_OPS = ["add", "sub", "iadd", "isub", "neg", "copy", "T", "conj", "real", "imag", "lmul", "rmul", "matmul", "rmatmul",
+ALL_OPS = ["add", "sub", "iadd", "isub", "neg", "copy", "addzero", "raddzero", "subzero", "rsubzero", "pos", "T", "conj", "real", "imag", "lmul", "rmul", "matmul", "rmatmul",
            "matvec", "vecmat", "contract_dense", "contract_sparse", "contract_batch", "trace", "diag", "elem", "slice",
            "fancy", "zrows", "zcols"]
 
@@ -171,6 +171,16 @@ def apply(op, args, S):
         S["R"] = -X
     elif op == "copy":
         S["R"] = X.copy()
+    elif op == "addzero":
+        S["R"] = X + 0
+    elif op == "raddzero":
+        S["R"] = 0 + X
+    elif op == "subzero":
+        S["R"] = X - 0
+    elif op == "rsubzero":
+        S["R"] = 0 - X
+    elif op == "pos":
+        S["R"] = +X
     elif op == "T":
         S["R"] = X.T
     elif op == "conj":
